@@ -29,7 +29,18 @@ def c11_ok (e : Extract) (o : VOutcome) (verdict delivered : String) : Option St
   if verdict == "accept" && delivered != "same" then some "c11_delivered_value" else
   if verdict != "accept" && verdict != "ignore" && verdict != "reject" then some "c11_total" else none
 
+/-- two real gossipsub nodes: every valid message that the verifier accepts is shown to it and delivered, also when it
+    arrives while the verifier is busy with another one -/
+def evalC11Gossip (outs : List String) : Oracle.Verdict :=
+  match kv? outs "first", kv? outs "second", kvNat? outs "delivered" with
+  | some f, some sd, some d =>
+    if f != "seen" || sd != "seen" then .prop "c11_accept_iff" s!"a valid gossiped header never reached the verifier: first={f} second={sd}"
+    else if d != 2 then .prop "c11_delivered_valid" s!"delivered {d} of 2 accepted headers"
+    else .ok "gossip"
+  | _, _, _ => .bad "C11 gossip"
+
 def evalC11 (ins outs : List String) : Oracle.Verdict :=
+  if kv? ins "kind" == some "gossip" then evalC11Gossip outs else
   match (kv? ins "payload").bind extractOf?, (kv? ins "outcome").bind outcomeOf?, kv? outs "verdict", kv? outs "delivered" with
   | some e, some o, some v, some d =>
     match c11_ok e o v d with
